@@ -159,13 +159,13 @@ def build_model():
         tg = ['theories/%s.vo' % m for ms in mods for m in ms.split()]
         rc, out = coq_make(tg)
         if rc != 0: raise BuildBroken('coq build of model theories', out)
-        deps = [os.path.join(COQ, t) for t in tg] + [os.path.join(ex, f) for f in ('Extract.v', 'driver.ml', 'zio.ml')]
+        deps = [os.path.join(COQ, t) for t in tg] + [os.path.join(ex, f) for f in ('Extract.v', 'driver.ml', 'zio.ml', 'sexp.ml')]
         exe = os.path.join(ex, 'mxmodel')
         if os.path.exists(exe) and all(os.path.getmtime(d) <= os.path.getmtime(exe) for d in deps):
             return exe
         rc, out = sh(['coqc', '-Q', '../theories', 'Mx', 'Extract.v'], cwd=ex, timeout=600)
         if rc != 0: raise BuildBroken('extraction', out)
-        rc, out = sh('ocamlfind ocamlopt -O3 -unboxed-types 2>/dev/null; ocamlfind ocamlopt -w -a -package str model.mli model.ml zio.ml driver.ml -o mxmodel', cwd=ex, timeout=600)
+        rc, out = sh('ocamlfind ocamlopt -w -a -package str model.mli model.ml zio.ml sexp.ml driver.ml -o mxmodel', cwd=ex, timeout=600)
         if rc != 0 or not os.path.exists(exe): raise BuildBroken('ocaml build', out)
         return exe
 
